@@ -62,7 +62,7 @@ func C19(r *core.Run) {
 			What string `json:"what"`
 		} `json:"violations"`
 	}
-	nparts := r.Pick(1, 16)
+	nparts := r.Pick(4, 16)
 	reps := make([]*report, nparts)
 	crash := make([]string, nparts)
 	incon := make([]string, nparts)
@@ -77,11 +77,31 @@ func C19(r *core.Run) {
 		}
 		go func() { done <- run.Wait() }()
 		var err error
+		wd := 40 * time.Minute
+		if r.Quick() {
+			wd = 6 * time.Minute
+		}
 		select {
 		case err = <-done:
-		case <-time.After(40 * time.Minute):
+		case <-time.After(wd):
+			// spinning (CPU time keeps growing, no output) or merely slow?
+			c1 := procCPUTicks(run.Process.Pid)
+			time.Sleep(2 * time.Second)
+			c2 := procCPUTicks(run.Process.Pid)
 			_ = run.Process.Kill()
-			incon[part] = "wasm program watchdog (40 min)"
+			last := ""
+			for _, line := range strings.Split(stdout.String(), "\n") {
+				if strings.HasPrefix(line, "WASMCHK-STEP ") {
+					last = strings.TrimPrefix(line, "WASMCHK-STEP ")
+				}
+			}
+			if c2-c1 >= 150 && last != "" && !strings.Contains(stdout.String(), "WASMCHK-REPORT") {
+				// (100 ticks per second: the process burned >= 1.5 s of CPU in 2 s without finishing
+				// a call that normally takes microseconds; js/wasm cannot be preempted)
+				crash[part] = fmt.Sprintf("the program was still inside the lifecycle call announced last after %v, burning CPU without yielding: the last call of the sequence %s never returns (spins)", wd, last)
+				return
+			}
+			incon[part] = fmt.Sprintf("wasm program watchdog (%v)", wd)
 			return
 		}
 		for _, line := range strings.Split(stdout.String(), "\n") {
@@ -108,6 +128,10 @@ func C19(r *core.Run) {
 	for part := 0; part < nparts; part++ {
 		if crash[part] != "" {
 			r.CaseN(1, 2)
+			if strings.HasPrefix(crash[part], "the program was still inside") {
+				r.Violate("lifecycle:call-spins", crash[part], map[string]any{"part": part})
+				return
+			}
 			r.Violate("wasm:crash", "the wasm program died: "+short(strings.TrimSpace(crash[part]), 1500), map[string]any{"output": crash[part], "part": part})
 			return
 		}
@@ -136,4 +160,23 @@ func C19(r *core.Run) {
 	for _, v := range rep.Violations {
 		r.Violate(v.Sig, v.What, map[string]any{"what": v.What})
 	}
+}
+
+// procCPUTicks: utime+stime of a process in clock ticks (Linux /proc), 0 if unavailable.
+func procCPUTicks(pid int) int64 {
+	b, err := os.ReadFile(fmt.Sprintf("/proc/%d/stat", pid))
+	if err != nil {
+		return 0
+	}
+	s := string(b)
+	if i := strings.LastIndex(s, ")"); i >= 0 {
+		f := strings.Fields(s[i+1:])
+		if len(f) > 13 {
+			var u, st int64
+			fmt.Sscan(f[11], &u)
+			fmt.Sscan(f[12], &st)
+			return u + st
+		}
+	}
+	return 0
 }
